@@ -50,7 +50,7 @@ def strategy(tier, phase):
     from hypothesis import strategies as st
 
     spec = st.fixed_dictionaries({
-        "g": st.integers(0, 2), "kind": st.integers(0, len(KINDS) - 1), "dtype": st.integers(0, len(DTYPES) - 1),
+        "g": st.sampled_from([0, 0, 1, 2, 3, 4]), "kind": st.integers(0, len(KINDS) - 1), "dtype": st.integers(0, len(DTYPES) - 1),
         "size": st.integers(0, 8), "alias": st.sampled_from([-1, -1, -1, 0, 1]), "tname": st.integers(0, 2), "seed": st.integers(0, 2**30),
     })
     opts = st.fixed_dictionaries({
@@ -85,8 +85,8 @@ def build(case, workdir):
     from onnx_ir import serde
 
     opts = case["opts"]
-    inits_main, inits_sub, inits_sub2 = [], [], []
-    GN = ["main", "sub", "sub2"]
+    inits_main, inits_sub, inits_sub2, inits_gs, inits_fs = [], [], [], [], []
+    GN = ["main", "sub", "sub2", "gsub", "fsub"]
     made = []  # (tensor, code, shape, ref)
     expected = []
     other_file = os.path.join(workdir, "other.bin")
@@ -106,13 +106,15 @@ def build(case, workdir):
             code = 1
         b, kindc = refenc.DT[code]
         name = f"w{i}"
-        gi = sp["g"] % 3
-        if gi and backend == 0:
+        # 0 main graph, 1/2 the branches of an If, 3 a graph held in a list-of-graphs attribute of a custom node,
+        # 4 a branch of an If inside the body of a model-local function (raw backend only)
+        gi = sp["g"] % 5 if backend == 0 else sp["g"] % 3
+        if gi in (1, 2) and backend == 0:
             # sibling subgraphs may use the same initializer name (the scopes are disjoint): w-names are shared pairwise
             cand_name = f"ws{i // 2}"
             if not any(v_.name == cand_name for v_ in (inits_sub if gi == 1 else inits_sub2)):
                 name = cand_name
-        if sp["alias"] >= 0 and sp["alias"] < len(made):
+        if sp["alias"] >= 0 and sp["alias"] < len(made) and gi != 4:
             tensor, code, shape, ref = made[sp["alias"]]
         else:
             n = _size_elems(sp["size"], opts["threshold"], opts["shard"], code)
@@ -128,6 +130,10 @@ def build(case, workdir):
             else:
                 arr = np.array(pats, dtype=np.uint8).view(npdt).reshape(shape)
             kind = KINDS[sp["kind"] % len(KINDS)]
+            if gi == 4 and kind.startswith("external"):
+                # ir.save does not touch initializers of graphs nested in function bodies at all (they stay as they are):
+                # an already-external one there is outside what the statement covers - in-memory kinds only
+                kind = "tensor"
             tname = [name, f"other_{i}", None][sp["tname"] % 3]
             if kind == "packed" and b >= 8:
                 kind = "tensor"
@@ -156,7 +162,7 @@ def build(case, workdir):
                 tensor = ir.ExternalTensor(rel, off, len(ref), dtype, shape=ir.Shape(shape), name=tname or name, base_dir=workdir)
             made.append((tensor, code, shape, ref))
         v = ir.Value(name=name, const_value=tensor)
-        [inits_main, inits_sub, inits_sub2][gi].append(v)
+        [inits_main, inits_sub, inits_sub2, inits_gs, inits_fs][gi].append(v)
         expected.append((GN[gi], name, code, list(shape), ref))
     x = ir.Value(name="x", type=ir.TensorType(ir.DataType.FLOAT), shape=ir.Shape([1]))
     inner = ir.Node("", "Identity", [inits_sub[0] if inits_sub else x], num_outputs=1, name="inner")
@@ -167,9 +173,45 @@ def build(case, workdir):
     sub2 = ir.Graph([], [inner2.outputs[0]], nodes=[inner2], initializers=inits_sub2, name="sub2")
     holder = ir.Node("", "If", [x], [ir.AttrGraph("then_branch", sub), ir.AttrGraph("else_branch", sub2)], num_outputs=1, name="holder")
     holder.outputs[0].name = "y"
-    g = ir.Graph([x], [holder.outputs[0]], nodes=[holder], initializers=inits_main, name="main", opset_imports={"": 20})
+    main_nodes = [holder]
+    opsets = {"": 20}
+    if inits_gs:
+        inner3 = ir.Node("", "Identity", [inits_gs[0]], num_outputs=1, name="inner3")
+        inner3.outputs[0].name = "inner3_out"
+        gsub = ir.Graph([], [inner3.outputs[0]], nodes=[inner3], initializers=inits_gs, name="gsub")
+        empty = ir.Graph([], [], nodes=[], name="gsub_empty")
+        multi = ir.Node("custom.ops", "Multi", [x], [ir.Attr("branches", ir.AttributeType.GRAPHS, [empty, gsub])], num_outputs=1, name="multi")
+        multi.outputs[0].name = "multi_out"
+        main_nodes.append(multi)
+        opsets["custom.ops"] = 1
+    g = ir.Graph([x], [holder.outputs[0]], nodes=main_nodes, initializers=inits_main, name="main", opset_imports=opsets)
     model = ir.Model(g, ir_version=10)
+    if inits_fs:
+        fx = ir.Value(name="fx")
+        fin = ir.Node("", "Identity", [inits_fs[0]], num_outputs=1, name="f_inner")
+        fin.outputs[0].name = "f_inner_out"
+        fsub = ir.Graph([], [fin.outputs[0]], nodes=[fin], initializers=inits_fs, name="fsub")
+        fneg = ir.Node("", "Identity", [fx], num_outputs=1, name="f_else_id")
+        fneg.outputs[0].name = "f_else_out"
+        felse = ir.Graph([], [fneg.outputs[0]], nodes=[fneg], name="fsub_else")
+        fif = ir.Node("", "If", [fx], [ir.AttrGraph("then_branch", fsub), ir.AttrGraph("else_branch", felse)], num_outputs=1, name="f_if")
+        fif.outputs[0].name = "fy"
+        fn = ir.Function("local", "fn", graph=ir.Graph([fx], [fif.outputs[0]], nodes=[fif], name="fn_body", opset_imports={"": 20}), attributes=[])
+        model.functions[fn.identifier()] = fn
+        g.opset_imports["local"] = 1
     return model, expected
+
+
+def all_graphs(model):
+    """Every graph of the model: main graph, its nested graphs, function bodies and the graphs nested in them."""
+    out = list(model.graphs())
+    seen = {id(g) for g in out}
+    for f in model.functions.values():
+        for g in [f.graph] + list(f.graph.subgraphs()):
+            if id(g) not in seen:
+                seen.add(id(g))
+                out.append(g)
+    return out
 
 
 def execute(case):
@@ -195,7 +237,7 @@ def execute(case):
         stem = STEMS[opts["stem"] % len(STEMS)]
         mpath = os.path.join(workdir, stem)
         dest = DESTS[opts["dest"] % len(DESTS)]
-        values = [v for g in model.graphs() for v in g.initializers.values()]
+        values = [v for g in all_graphs(model) for v in g.initializers.values()]
         ids_before = [id(v.const_value) for v in values]
         preexisting = {}
         if opts["fault"] == 2 and opts["shard"] is not None and backend == 0:
@@ -253,7 +295,7 @@ def execute(case):
         classes.append(bname)
         # (1) reload
         loaded = ir.load(mpath)
-        lgraphs = list(loaded.graphs())
+        lgraphs = all_graphs(loaded)
         above = 0
         kinds_present = set()
         for (gi, name, code, shape, ref), sp in zip(expected, case["inits"]):
@@ -276,6 +318,8 @@ def execute(case):
             except Exception as e:
                 fails.append((f"reload-read-raised/{bname}/{_dc(code)}/{type(e).__name__}", f"{name} ({refenc.NAMES[code]}{shape}): reading the reloaded tensor raised {type(e).__name__}: {e}"[:300]))
             is_ext = isinstance(t, ir.ExternalTensor)
+            if gi == "fsub":
+                continue  # (the statement speaks of the main graph and its subgraphs: no threshold clause inside function bodies)
             if n > opts["threshold"] and not is_ext:
                 fails.append((f"above-threshold-inline/{bname}", f"{name}: {n} bytes > threshold {opts['threshold']} but stored inline"))
             if n < opts["threshold"] and is_ext:
@@ -293,8 +337,17 @@ def execute(case):
                 for a in n_.attribute:
                     if a.HasField("g"):
                         walk(a.g)
+                    for sg in a.graphs:
+                        walk(sg)
 
         walk(mp.graph)
+        for fp_ in mp.functions:
+            for n_ in fp_.node:
+                for a in n_.attribute:
+                    if a.HasField("g"):
+                        walk(a.g)
+                    for sg in a.graphs:
+                        walk(sg)
         by_file = {}
         for name, loc, off, length, tp in entries:
             by_file.setdefault(loc, []).append((name, off, length, tp))
